@@ -70,6 +70,10 @@ def gen_unit(rng):
     for _ in range(rng.choice((0, 1, 1, 2, 3))):
         g = rng.randrange(nvalues + 1)
         gaps[g] = [gen_token(rng) for _ in range(rng.randint(1, 5))]
+    if rng.random() < 0.003:
+        # one very long malformed region (tens of thousands of bytes without a value in between)
+        g = rng.randrange(nvalues + 1)
+        gaps[g] = [bytes([rng.choice(SPECIAL)]) * 60000] if rng.random() < 0.5 else [bytes([rng.choice(SPECIAL)]) * 3] * 15000
     if rng.random() < 0.2:
         gaps[nvalues] = gaps[nvalues] + [rng.choice(TRUNCATED)]
     return {"values": vals, "gaps": gaps, "pipeline": rng.choice(list(PIPELINES)),
@@ -138,6 +142,10 @@ def run_unit(ctx, unit):
         single = ctx.rng.choice(regions) if hasattr(ctx, "rng") else regions[0]
         sdata, _ = build(unit, True, only_gap=single)
         cases.append(("single/stderr", core.Case(["--on-error", "stderr"] + pargs, sdata)))
+        if len(noisy) < 5000 and (unit["wsseed"] & 3) == 0:
+            # the same noisy stream given as a file: same rows, a report per region, failure under panic
+            cases.append(("file/stderr", core.Case(["@D@/noisy.json", "--on-error", "stderr"] + pargs, b"", files=[("noisy.json", noisy)])))
+            cases.append(("file/panic", core.Case(["@D@/noisy.json", "--on-error", "panic"] + pargs, b"", files=[("noisy.json", noisy)])))
     obs = ctx.drv.run_many([c for _, c in cases])
     res = {}
     for (name, c), o in zip(cases, obs):
@@ -211,6 +219,15 @@ def run_unit(ctx, unit):
         if o.result != "ok" or o.stdout != base.stdout or len(el) < 1:
             return bad("single-region-no-report", "a stream with only region %d inserted yields no error line" % single, "single/stderr")
         st.count("single_region_runs")
+    if "file/stderr" in res:
+        o = res["file/stderr"]
+        el = [l for l in o.stderr.split(b"\n") if l]
+        if o.result != "ok" or o.stdout != base.stdout or len(el) < len(regions) or any(not l.startswith(b"error:") for l in el):
+            return bad("file-stderr", "the noisy stream given as a file: rows differ from the clean stream or a region is not reported", "file/stderr")
+        o = res["file/panic"]
+        if o.result != "err" or (streaming and o.stdout != res["prefix"].stdout):
+            return bad("file-panic", "the noisy stream given as a file: --on-error=panic did not fail at the first malformed byte", "file/panic")
+        st.count("file_delivery_runs")
     st.count("noise_regions", len(regions))
     st.count("error_lines_seen", len(elines))
     if regions and unit["values"]:
